@@ -22,6 +22,13 @@ pub fn verif_dir() -> String {
   std::env::var("VERIF_DIR").unwrap_or_else(|_| "/verif".to_string())
 }
 
+// Where evidence and replay files are written. Always /verif for registered commands; the
+// development tools (mutant and seeded-change runs) point it elsewhere so that they do not
+// overwrite the evidence of the unchanged tree.
+pub fn verif_out_dir() -> String {
+  std::env::var("VERIF_OUT_DIR").unwrap_or_else(|_| verif_dir())
+}
+
 impl Findings {
   pub fn load() -> Findings {
     let path = format!("{}/known_findings.json", verif_dir());
